@@ -310,6 +310,15 @@ def main():
         if g.returncode != 0:
             print("TOOL-ERROR property=%s run list generator failed: %s" % (prop, g.stderr.decode()[-500:])); sys.exit(2)
         spec["runs"] = spec.get("runs", []) + json.loads(g.stdout.decode())
+    # runs of other properties that also carry this one (same real code, same obligations): imported by reference, not copied
+    for imp in spec.get("imports", []):
+        other = json.load(open(os.path.join(VERIF, "obligations", imp["from"] + ".json")))
+        for rs in other.get("runs", []):
+            if re.search(imp["ids"], rs["id"]):
+                q = json.loads(json.dumps(rs)); q["id"] = prop + ".via." + rs["id"]
+                if imp.get("tier"): q["tier"] = imp["tier"]
+                q["what"] = "(run shared with %s) %s" % (imp["from"], q.get("what", ""))
+                spec["runs"].append(q)
     runs = []
     for rs in spec["runs"]:
         if args.only and not re.search(args.only, rs["id"]): continue
